@@ -12,6 +12,7 @@ from joblib import Parallel, delayed
 from tqdm.auto import tqdm
 
 from pgmpy.base import DAG
+from pgmpy.factors.base import BaseFactor
 from pgmpy.factors.continuous import ContinuousFactor
 from pgmpy.factors.discrete import (
     DiscreteFactor,
@@ -338,7 +339,8 @@ class BayesianNetwork(DAG):
         >>> student.remove_cpds(cpd)
         """
         for cpd in cpds:
-            if isinstance(cpd, (str, int)):
+            # Anything which is not a CPD object is a node name (any hashable, e.g. a tuple).
+            if not isinstance(cpd, BaseFactor):
                 cpd = self.get_cpds(cpd)
             self.cpds.remove(cpd)
 
